@@ -390,6 +390,15 @@ def perform(ctx, p, cfg, sfx=""):
 
 def harness(ctx, cfg):
     p = build(ctx, cfg)
+    if cfg.get("bounded") is not None:
+        # BOUNDED-ID variant: every time / id / argument lies in 0..B, so that code which uses them as dict keys (memo
+        # tables, sets) can be followed - hashing concretises a term by forks over its finite domain.  (z3 constants
+        # are identified by name: the argument constants created later are constrained here.)
+        B = cfg["bounded"]
+        terms = list(p.t0[:p.N]) + list(p.tid0[:p.N]) + list(p.lid0[:p.N]) + [toint(p.maxt), toint(p.maxl)]
+        terms += [z3.Int(nm) for nm in ("new_t", "new_tid", "new_lid", "q_track:after_edit", "q_time:after_edit",
+                                        "q_track:after_undo", "q_time:after_undo")]
+        ctx.assume(And([And(x >= 0, x <= B) for x in terms if x is not None]))
     kind = cfg["action"]
     is_user = kind.startswith("User")
     k = z3.Int("k_fresh")
